@@ -439,7 +439,7 @@ func (g *c12Gen) observe(list bool, name string) []zr.Stmt {
 			iv2, ev2 := fmt.Sprintf("序%d", g.n), fmt.Sprintf("项%d", g.n)
 			m := 2 + g.r.Intn(2)
 			skip := zr.If{Cond: zr.Bin{Op: "==", L: zr.Bin{Op: "%", L: zr.N(iv2), R: intLit(m)}, R: intLit(g.r.Intn(m))}, Then: []zr.Stmt{zr.Continue{}}}
-			bodyStmts := []zr.Stmt{skip, zr.Show(zr.S("遍续"), zr.N(iv2), zr.N(ev2), zr.Index{Recv: zr.N(name), Idx: zr.N(iv2)})}
+			bodyStmts := []zr.Stmt{skip, zr.Show(zr.S("遍续"), zr.N(iv2), zr.N(ev2), zr.Index{Recv: zr.N(name), Idx: zr.Bin{Op: "+", L: zr.N(iv2), R: intLit(0)}})}
 			if g.r.Intn(3) == 0 {
 				bodyStmts = append(bodyStmts, zr.If{Cond: zr.Bin{Op: ">=", L: zr.N(iv2), R: intLit(3 + g.r.Intn(3))}, Then: []zr.Stmt{zr.Break{}}})
 			}
